@@ -197,7 +197,7 @@ def generate(tier, seed):
     for lit in harvest_repo_tests():
         items.append({'family': 'repo-unit-tests', 'text': lit})
     pool = [f for _, f in tpl]
-    n = 1200 if tier == 'quick' else 20000
+    n = 1200 if tier == 'quick' else 60000
     for _ in range(n):
         items.append({'family': 'seeded-compositions', 'formula': rand_compose(rnd, pool, rnd.choice([1, 1, 2]))})
     return items
@@ -380,7 +380,7 @@ def replay(r):
 
 def describe(tier):
     return {
-        'rule': 'pattern-directed templates for each of the 15 rewrites (holes filled from pools that include shadowed '
+        'rule': 'pattern-directed templates (incl. chained comparisons wherever a rewrite expects an equality) for each of the 15 rewrites (holes filled from pools that include shadowed '
                 'and repeated binders, self-referential and mixed-sort equalities, duplicated conjuncts), the string '
                 'literals of the repo\'s simplifier unit tests that parse as formulas, and seeded compositions of the '
                 'templates; each formula is pushed through 3 portfolios x 3 strategies and each of the 15 single rewrites; '
